@@ -276,6 +276,10 @@ def main(repo_path, tier, seed, replay=None):
     eff = Effects(repo)
     fa = FuncAnalyzer(repo)
     fr = FieldRanges(repo, fa)
+    # a remembered banking decision (mode, n) -> storage cell is only right if the key is the whole input and nothing collides
+    from .. import memo
+    memo.check(run, repo, 'C10-MEMO', lambda rel, q: rel.endswith('registers.py') and q.startswith('Registers.'),
+               'register banking: the storage cell of (register number, mode) is computed from the current arguments on every access')
     check_widths(run, repo, eff, fr, fa)
     check_banking(run, repo)
     check_ownership(run, repo)
